@@ -117,6 +117,22 @@ struct CallerExt {
     hmac_secret: Option<ctap_types::Bytes<400>>,
 }
 
+/// ... and one with many members (24 optional small integers "k00" .. "k23")
+macro_rules! caller_wide {
+    ($($f:ident = $n:literal),*) => {
+        #[derive(Clone, Debug, Default, Eq, PartialEq, serde::Serialize)]
+        struct CallerWide {
+            $(#[serde(rename = $n, skip_serializing_if = "Option::is_none")] $f: Option<u8>,)*
+        }
+        fn caller_wide(v: &Value) -> R<CallerWide> {
+            Ok(CallerWide { $($f: build::opt_field(v, $n, get_u8)?,)* })
+        }
+    };
+}
+caller_wide!(k00 = "k00", k01 = "k01", k02 = "k02", k03 = "k03", k04 = "k04", k05 = "k05", k06 = "k06", k07 = "k07", k08 = "k08",
+             k09 = "k09", k10 = "k10", k11 = "k11", k12 = "k12", k13 = "k13", k14 = "k14", k15 = "k15", k16 = "k16", k17 = "k17",
+             k18 = "k18", k19 = "k19", k20 = "k20", k21 = "k21", k22 = "k22", k23 = "k23");
+
 pub fn authdata(inp: &Value) -> R<Value> {
     let i = field(inp, "in")?;
     let flavour = field(i, "flavour")?.as_str().ok_or("flavour")?;
@@ -170,6 +186,17 @@ pub fn authdata(inp: &Value) -> R<Value> {
                 }),
                 None => None,
             };
+            let ad = ctap2::AuthenticatorData {
+                rp_id_hash: &hash, flags, sign_count: count,
+                attested_credential_data: None::<get_assertion::NoAttestedCredentialData>, extensions: e,
+            };
+            ad.serialize()
+        }
+        "wide" => {
+            if acd_val.is_some() {
+                return Err("wide flavour has no attested credential data".into());
+            }
+            let e = match ext { Some(e) => Some(caller_wide(e)?), None => None };
             let ad = ctap2::AuthenticatorData {
                 rp_id_hash: &hash, flags, sign_count: count,
                 attested_credential_data: None::<get_assertion::NoAttestedCredentialData>, extensions: e,
